@@ -192,38 +192,7 @@ func runC21(c *engine.Ctx) {
 			c.AnchorMissing(r3, "impl.graphsyncConfigOptions."+w.cfg)
 		}
 	}
-	// per-peer option
-	perPeer := cfgT("maxInProgressIncomingRequestsPerPeer")
-	found := false
-	for _, ci := range engine.Calls(implNew) {
-		if !ci.Is("github.com/ipfs/go-peertaskqueue.MaxOutstandingWorkPerPeer") {
-			continue
-		}
-		found = true
-		okArg := isLoadOfField(ci.Arg(0), perPeer)
-		guard := false
-		for _, cd := range engine.InstrConds(ci.Instr) {
-			if b, ok := cd.V.(*ssa.BinOp); ok && isLoadOfField(b.X, perPeer) && ((b.Op == token.GTR && cd.Pol) || (b.Op == token.NEQ && cd.Pol)) {
-				guard = true
-			}
-		}
-		// the option list reaches the response queue's constructor
-		reaches := false
-		call := ci.Value()
-		for _, cj := range engine.Calls(implNew) {
-			if cj.Static != nil && cj.Static.Name() == "NewTaskQueue" && roleOfQueue(c, implNew, cj.Value()) == "response" {
-				if sliceHolds(cj.Common.Args[len(cj.Common.Args)-1], call) {
-					reaches = true
-				}
-			}
-		}
-		c.Decide(r3, "per-peer-limit", ci.Instr.Pos(), okArg && guard && reaches,
-			"per-peer maximum becomes MaxOutstandingWorkPerPeer of the response queue, only when > 0",
-			fmt.Sprintf("per-peer limit wiring broken (value from the option: %v, only when > 0: %v, reaches the response queue: %v)", okArg, guard, reaches))
-	}
-	if !found {
-		c.Violate(r3, "per-peer-limit", implNew.Pos(), "the per-peer maximum is never turned into a MaxOutstandingWorkPerPeer option")
-	}
+	c21PerPeer(c, r3)
 
 	// R4 task release
 	c21Release(c, r4, tqFns)
@@ -391,4 +360,73 @@ func c21Release(c *engine.Ctx, rule string, tqFns []*ssa.Function) {
 		}
 		c.Decide(rule, engine.FuncName(f)+"|release-once", f.Pos(), ok && n > 0, "every path terminates the worker, or releases the task exactly once (empty tasks are released by the start handler)", bad)
 	}
+}
+
+// c21PerPeer (C21.R3, C25.R4): the per-peer maximum becomes the response queue's MaxOutstandingWorkPerPeer,
+// with the option's own value, whenever it is > 0.  (It is also what keeps a stalled peer from occupying every
+// shared executor: C25.)
+func c21PerPeer(c *engine.Ctx, r3 string) {
+	implNew := c.P.Func("impl", "", "New")
+	if implNew == nil {
+		c.AnchorMissing(r3, "impl.New")
+		return
+	}
+	cfgT := func(name string) *types.Var { return c.P.Field("impl", "graphsyncConfigOptions", name) }
+	// per-peer option
+	perPeer := cfgT("maxInProgressIncomingRequestsPerPeer")
+	found := false
+	for _, ci := range engine.Calls(implNew) {
+		if !ci.Is("github.com/ipfs/go-peertaskqueue.MaxOutstandingWorkPerPeer") {
+			continue
+		}
+		found = true
+		okArg := isLoadOfField(ci.Arg(0), perPeer)
+		guard := false
+		for _, cd := range engine.InstrConds(ci.Instr) {
+			if b, ok := cd.V.(*ssa.BinOp); ok && isLoadOfField(b.X, perPeer) && ((b.Op == token.GTR && cd.Pol) || (b.Op == token.NEQ && cd.Pol)) {
+				guard = true
+			}
+		}
+		// the option list reaches the response queue's constructor
+		reaches := false
+		call := ci.Value()
+		for _, cj := range engine.Calls(implNew) {
+			if cj.Static != nil && cj.Static.Name() == "NewTaskQueue" && roleOfQueue(c, implNew, cj.Value()) == "response" {
+				if sliceHolds(cj.Common.Args[len(cj.Common.Args)-1], call) {
+					reaches = true
+				}
+			}
+		}
+		// ... and whenever it is > 0: no further condition decides whether the limit is installed
+		extra := 0
+		consumerIfs := map[*ssa.If]bool{}
+		for _, cj := range engine.Calls(implNew) {
+			if cj.Static != nil && cj.Static.Name() == "NewTaskQueue" {
+				for _, cd := range engine.RawInstrConds(cj.Instr) {
+					consumerIfs[cd.If] = true
+				}
+			}
+		}
+		for _, cd := range engine.RawInstrConds(ci.Instr) {
+			if consumerIfs[cd.If] {
+				continue // also governs the queue's construction: not what decides whether the limit is installed
+			}
+			if b, ok := cd.V.(*ssa.BinOp); ok && isLoadOfField(b.X, perPeer) {
+				if k, isK := engine.ConstInt(b.Y); isK && k == 0 {
+					continue
+				}
+			}
+			extra++
+		}
+		c.Decide(r3, "per-peer-limit|whenever-positive", ci.Instr.Pos(), extra == 0,
+			"a positive per-peer maximum is always installed",
+			"whether the per-peer maximum is installed depends on something besides its being > 0: for some configurations the limit is silently dropped and one peer can run more traversals at once than configured")
+		c.Decide(r3, "per-peer-limit", ci.Instr.Pos(), okArg && guard && reaches,
+			"per-peer maximum becomes MaxOutstandingWorkPerPeer of the response queue, only when > 0",
+			fmt.Sprintf("per-peer limit wiring broken (value from the option: %v, only when > 0: %v, reaches the response queue: %v)", okArg, guard, reaches))
+	}
+	if !found {
+		c.Violate(r3, "per-peer-limit", implNew.Pos(), "the per-peer maximum is never turned into a MaxOutstandingWorkPerPeer option")
+	}
+
 }
